@@ -484,6 +484,16 @@ def x7_shims(text, log):
         return "vx_to_values(&%s, %s)" % (m.group(1), m.group(2)) + _nl(m.group(0))
     text = re.sub(r"\b([a-z_][a-z0-9_]*)\s*\.iter\(\)\s*\.map\(\|value_ref\| value_ref\.to_value\(([a-z_][a-z0-9_]*)\)\)\s*\.collect\(\)", tovals, text)
 
+    def splitcollect(m):
+        log.add("X7:vx_split_collect")
+        return "vx_split_collect(%s.as_str().unwrap(), %s)" % (m.group(1), m.group(2)) + _nl(m.group(0))
+    text = re.sub(r"\b([a-z_][a-z0-9_]*)\s*\.as_str\(\)\s*\.unwrap\(\)\s*\.split\(('.')\)\s*\.collect\(\)", splitcollect, text)
+
+    def parsecat(m):
+        log.add("X7:vx_parse_category")
+        return "vx_parse_category(%s.as_str().unwrap())" % m.group(1) + _nl(m.group(0))
+    text = re.sub(r"\b([a-z_][a-z0-9_]*)\s*\.as_str\(\)\s*\.unwrap\(\)\s*\.parse::<Category>\(\)\s*\.ok\(\)", parsecat, text)
+
     def padnulls(m):
         log.add("X7:vx_pad_nulls")
         return "vx_pad_nulls(%s, &%s)" % (m.group(1), m.group(2)) + _nl(m.group(0))
